@@ -1793,6 +1793,24 @@ void Parser::ParserImpl::loadResetChild(const std::string &childType, const Rese
     XmlNodePtr mathNode = node->firstChild();
     while (mathNode != nullptr) {
         if (mathNode->isMathmlElement("math")) {
+            // Copy any namespaces that do not feature as a namespace definition of the math node
+            // into the math node, as is done for the math of a component.
+            auto mathElementDefinedNamespaces = mathNode->definedNamespaces();
+            auto possiblyUndefinedNamespaces = traverseTreeForUndefinedNamespaces(mathNode->firstChild());
+            auto mathAttribute = mathNode->firstAttribute();
+            while (mathAttribute != nullptr) {
+                if (!mathAttribute->namespacePrefix().empty()) {
+                    possiblyUndefinedNamespaces.emplace(mathAttribute->namespacePrefix(), mathAttribute->namespaceUri());
+                }
+                mathAttribute = mathAttribute->next();
+            }
+            possiblyUndefinedNamespaces.emplace(mathNode->namespacePrefix(), mathNode->namespaceUri());
+            auto undefinedNamespaces = determineMissingNamespaces(possiblyUndefinedNamespaces, mathElementDefinedNamespaces);
+            for (auto it = undefinedNamespaces.begin(); it != undefinedNamespaces.end(); ++it) {
+                mathNode->addNamespaceDefinition(it->second, it->first);
+            }
+
+            // Append a self contained math XML document to the reset.
             std::string math = mathNode->convertToString() + "\n";
             if (childType == "test_value") {
                 reset->appendTestValue(math);
